@@ -12,7 +12,7 @@ def common(pkg):
 
 class P(vlib.Prop):
     pid = "C10"
-    coq_dirs = ["Common", "C10"]
+    coq_dirs = ["Common", "C10", "Generated"]
     coq_targets = ["C10/Properties.vo", "C10/Witness.vo", "C10/Harness.vo"]
     properties_module = "C10.Properties"
     properties_file = "C10/Properties.v"
@@ -43,7 +43,7 @@ class P(vlib.Prop):
             "same processor ID in several pipelines, 0-2 connectors) built with the real graph.Build; per topology a run "
             "without failure, EVERY single component Start failure, EVERY single Shutdown failure and 4 random "
             "multi-failure assignments through Graph.StartAll + ShutdownAll (fresh graph per run). "
-            "ext (kind 1): 0-7 extensions with random acyclic Dependencies() (some not Dependent) through the real "
+            "ext (kind 7): 60 extension sets with a dependency cycle of length 1-3 (rejected with an error naming a real cycle; self-dependency panics inside gonum, reproduced by the model). ext (kind 1): 0-7 extensions with random acyclic Dependencies() (some not Dependent) through the real "
             "extensions.New/Start/Shutdown, same failure plan. service (kind 2): service.New + Start + Shutdown driven as "
             "collector.go does, pipelines + extensions + config/pipeline watchers, every single Start/Shutdown/notification "
             "failure + 6 random assignments. otelcol (kind 3): the real Collector.Run on a generated configuration; (kind 6): 120 Collector.Run over 2-4 "
@@ -62,7 +62,8 @@ class P(vlib.Prop):
         "hand-written model coq/C10/Model.v (StartAll/ShutdownAll, Extensions.Start/Shutdown/Notify*, Service.Start/Shutdown, "
         "collector set-up/shutdown, sharedcomponent once-guards), tied to the code by the correspondence run on every check",
         "Go harnesses harness/C10/*.go (+ common.go.tmpl instantiated per package) injected with go test -overlay; Go toolchain",
-        "gonum topo.Sort: its result is an input of the model, validated per case by is_topo (proved sound)",
+        "gonum topo.Sort: modelled by topo_sort (any iteration order); per case the real order is validated by is_topo and must be reproduced by topo_sort with that order as preference",
+        "translator T1 (tools/go2coq, kind methodset): method sets of the six graph node types, regenerated from the source on every run",
         "the configuration-derived 'sends data to' relation computed by the harness (vTopo.specEdges) as the specification of the data-flow edges",
     ]
     assumptions = [
@@ -73,6 +74,8 @@ class P(vlib.Prop):
     ]
 
     def translate(self, ctx):
+        # translator T1: method sets of the graph's node types, read from the current source
+        vlib.go2coq(ctx, "service", os.path.join(vlib.VERIF, "props", "C10", "t1_spec.json"), "C10NodeKinds")
         # instantiate the shared harness code once per target package (package clause only)
         src = open(TMPL).read()
         for pkg in ("graph", "extensions", "service", "otelcol", "e2e"):
